@@ -227,4 +227,58 @@ theorem applyProjOrderOld_unsound :
 /-- … and the repaired applier keeps it executable. -/
 theorem applyProjOrder_regression : check (applyProjOrder wEs wEs wAgg) = .ok := by decide
 
+-- expressions the evaluator can evaluate ---------------------------------------------------------
+
+/-- An expression that is an entry of the input's schema is a column index: evaluable. -/
+theorem evalOk_of_mem (sch : List Tm) (e : Tm) (h : sch.contains e = true) : evalOk sch e = true := by
+  cases e with
+  | col t c => simp [evalOk]
+  | leaf l => simp [evalOk]
+  | node hd xs => simp [evalOk, h]
+
+/-- A subquery form (`exists`, `max1row`, a plan) that is not itself a column of the input is not
+evaluable, whatever is inside it. -/
+theorem evalOk_subquery (sch : List Tm) (hd : Hd) (xs : List Tm) (hs : subqueryHead hd = true)
+    (hm : sch.contains (.node hd xs) = false) : evalOk sch (.node hd xs) = false := by
+  simp [evalOk, hm, hs]
+
+/-- Any other operator is evaluable iff it is a column of the input or its arguments are. -/
+theorem evalOk_node (sch : List Tm) (hd : Hd) (xs : List Tm) (hs : subqueryHead hd = false) :
+    evalOk sch (.node hd xs) = (sch.contains (.node hd xs) || evalOkList sch xs) := by
+  simp [evalOk, hs]
+
+/-- The verdict is `ok` exactly when the builder accepts the plan and every expression of every
+operator is evaluable. -/
+theorem verdict_ok_iff (p : Tm) : verdict p = .ok ↔ check p = .ok ∧ evalCheck p = true := by
+  unfold verdict
+  cases hc : check p with
+  | ok =>
+    by_cases he : evalCheck p = true
+    · simp [he]
+    · simp [he]
+  | buildPanic w => simp
+  | runtimeTodo w => simp
+
+/-- A plan node whose verdict is `ok` has only evaluable expressions, and so have its inputs. -/
+theorem verdict_ok_node (hd : Hd) (xs : List Tm) (hp : planHead hd = true) (h : verdict (.node hd xs) = .ok) :
+    obligationsEvaluable (nodeObligations (.node hd xs)) = true ∧ evalCheckList xs = true := by
+  have h2 := ((verdict_ok_iff _).mp h).2
+  simpa [evalCheck, hp] using h2
+
+/-- Witness (the recorded finding `plan:subquery-left-in-optimized-plan:max1row`): the optimized
+plan of `select a, (select count(*) from t2) from t1` keeps `max1row` in the projection list; the
+builder accepts it, the evaluator cannot evaluate it. -/
+def wSub : Tm :=
+  .node .proj [.node .list [.col 0 0, .node .max1row [.node .agg [.node .list [.node (.other 5) []],
+      .node .scan [.leaf (.table 1), .node .list [], .leaf .tru]]]],
+    .node .scan [.leaf (.table 0), .node .list [.col 0 0], .leaf .tru]]
+
+theorem wSub_builder_accepts : check wSub = .ok := by decide
+theorem wSub_not_evaluable : evalCheck wSub = false := by decide
+theorem wSub_verdict : verdict wSub ≠ .ok := by
+  intro h
+  have := ((verdict_ok_iff _).mp h).2
+  revert this
+  decide
+
 end RlModel.Wf
